@@ -360,7 +360,12 @@ CHECKS = {
     'C12': dict(level='model_checking', invariants=INV['C12'], module='TraceDynCache',
                 assumptions=['scripted informer map and stub informers replace client-go informers; the Cache, its locking, reference bookkeeping and cache source are the real code',
                              'concurrent callers: only data races (go -race is not used in the quick tier) and the quiescent end state are checked, intra-lock interleavings are reached by chance'],
-                mc=lambda tier: [dict(name='dyncache', kind='plain', module='MC_DynCache', cfg='MC_DynCache_intended.cfg')],
+                mc=lambda tier: [dict(name='dyncache', kind='plain', module='MC_DynCache', cfg='MC_DynCache_intended.cfg'),
+                                 # negative controls: the two defects found (and fixed) in /repo, at the design level
+                                 dict(name='dyncache-asfound', kind='plain', module='MC_DynCache', cfg='MC_DynCache_asfound.cfg',
+                                      expect_violation='Inv_C12_InformerIffOwned'),
+                                 dict(name='dyncache-refonly', kind='plain', module='MC_DynCache', cfg='MC_DynCache_refonly.cfg',
+                                      expect_violation='Inv_C12_InformerIffOwned')],
                 jobs=lambda tier, seed: [
                     dict(name='c12-enum', module='TraceDynCache', shards=4 if tier == 'quick' else 14,
                          driver=['c12-seq', '-mode', 'enum', '-steps', '3' if tier == 'quick' else '4']),
